@@ -3,6 +3,10 @@ package main
 import (
 	crand "crypto/rand"
 	"crypto/rsa"
+	"crypto/x509"
+	"embed"
+	"encoding/pem"
+	"sort"
 	"sync"
 
 	"github.com/cloudflare/pat-go/ecdsa"
@@ -36,6 +40,56 @@ func rsaKey(i int) *rsa.PrivateKey {
 		wg.Wait()
 	})
 	return rsaKeys[i%len(rsaKeys)]
+}
+
+//go:embed testdata/*.pem
+var testKeys embed.FS
+
+// specialRSAKeys: committed RSA-2048 test keys whose token key id (SHA-256 of the RSASSA-PSS SPKI) has a boundary
+// byte where the protocols truncate it: last byte 00 / 01 / ff (types 1, 2, 5 carry the last byte), first byte 00
+// (the type-3 inner request carries the first byte).
+func specialRSAKeys() map[string]*rsa.PrivateKey {
+	out := map[string]*rsa.PrivateKey{}
+	ents, _ := testKeys.ReadDir("testdata")
+	for _, e := range ents {
+		b, _ := testKeys.ReadFile("testdata/" + e.Name())
+		blk, _ := pem.Decode(b)
+		if blk == nil {
+			continue
+		}
+		if k, err := x509.ParsePKCS1PrivateKey(blk.Bytes); err == nil {
+			out[e.Name()] = k
+		}
+	}
+	return out
+}
+
+func specialRSAKeyList() []*rsa.PrivateKey {
+	m := specialRSAKeys()
+	var names []string
+	for n := range m {
+		names = append(names, n)
+	}
+	sort.Strings(names)
+	var out []*rsa.PrivateKey
+	for _, n := range names {
+		out = append(out, m[n])
+	}
+	return out
+}
+
+// newT3WithKey is newT3 with a given RSA token key.
+func newT3WithKey(c *h.Ctx, k *rsa.PrivateKey, seed []byte, origins map[string][]byte) *t3env {
+	nk, err := type3.CreatePrivateEncapKeyFromSeed(seed)
+	if err != nil {
+		panic(err)
+	}
+	iss := type3.VerifNewIssuerWithNameKey(k, nk)
+	for name, ik := range origins {
+		priv, _ := ecdsa.CreateKey(elliptic.P384(), ik)
+		iss.AddOriginWithIndexKey(name, priv)
+	}
+	return &t3env{issuer: iss, nameKey: iss.NameKey(), tokenKeyID: iss.TokenKeyID(), key: k}
 }
 
 type t3env struct {
